@@ -428,4 +428,104 @@ class MidDelivery(Sub):
         return Result(viol, inside, ["backend:" + backend])
 
 
-SUBCHECKS = [Robust(), AsgiStack(), MidDelivery()]
+class AbandonedQuery(Sub):
+    """a stored query is abandoned (CLOSE, replacement, disconnect, hostile frame) while matching events keep arriving"""
+
+    name = "abandoned-query"
+    examples = {"quick": 160, "thorough": 1280}
+    shards = {"quick": 8, "thorough": 16}
+    rule = ("connection A sends a REQ whose stored query is kept in flight (LMDB: the query job is held back; SQL: all query "
+            "slots are taken); 0..3 matching events are accepted from B meanwhile; A then sends CLOSE / a replacing REQ / a "
+            "hostile frame / disconnects, before or after the query is let go; finally B's EVENT and REQ must be answered, "
+            "nothing may wait on a lock for ever and no task may be left over; non-trivial = an event was accepted while the "
+            "query was in flight and A abandoned it before it was let go")
+
+    def strategy(self, tier):
+        return st.tuples(st.sampled_from(["kv", "sql"]), st.integers(0, 3),
+                         st.sampled_from(["close", "replace", "disconnect", "hostile", "nothing"]), st.booleans(),
+                         st.integers(0, 30)).map(list)
+
+    def run_case(self, case):
+        return H.run(self._run, case)
+
+    async def _run(self, case):
+        backend, n_live, ending, before_release, n_stored = case
+        viol = []
+        async with H.Rig(backend, validators=[], file_db=True if backend == "sql" else None) as rig:
+            for i in range(n_stored):
+                await rig.add(E.free("%064x" % (i + 1), E.PKS[0], 1, E.T0 + i, [], "stored"))
+            await rig.settle()
+            base_tasks = len([t for t in asyncio.all_tasks() if not t.done()])
+            a = rig.conn("10.0.3.1")
+            b = rig.conn("10.0.3.2")
+            await rig.settle()
+            pool = rig.storage.query_pool if backend == "kv" else None
+            if pool is not None:
+                pool.park = True
+            else:
+                await rig.hold_query_slots()
+
+            def let_go():
+                if pool is not None:
+                    pool.park = False
+                    pool.release_all()
+                else:
+                    rig.release_query_slots()
+
+            async def turns(n=12):
+                import time as _t
+                for _ in range(n):
+                    await asyncio.sleep(0)
+                    if backend == "sql":
+                        _t.sleep(0.0003)
+
+            a.feed(["REQ", "x", {"kinds": [1]}])
+            await turns()
+            for j in range(n_live):
+                b.feed(["EVENT", E.free("%064x" % (0xaa00 + j), E.PKS[1], 1, E.T0 + 500 + j, [], "live")])
+                await turns()
+            if not before_release:
+                let_go()
+                await turns(3)
+            if ending == "close":
+                a.feed(["CLOSE", "x"])
+            elif ending == "replace":
+                a.feed(["REQ", "x", {"kinds": [2]}])
+            elif ending == "disconnect":
+                a.feed(None)
+            elif ending == "hostile":
+                a.feed('["REQ", "x", {"kinds": [1]}')   # truncated JSON
+                a.feed(["CLOSE", "x"])
+            await turns()
+            let_go()
+            await rig.settle()
+            if rig.stuck:
+                viol.append(V("stuck-on-lock", "tasks finish", waiting=rig.stuck, case=case))
+            if not viol:
+                fr = await b.send(["EVENT", E.free("ee" * 32, E.PKS[1], 1, E.T0 + 9999, [], "after")])
+                if rig.stuck or not any(json.loads(x)[0] == "OK" and json.loads(x)[2] is True for x in fr):
+                    viol.append(V("bystander-event-not-accepted", "other connections are unaffected", waiting=rig.stuck,
+                                  frames=fr[:2], case=case))
+            if not viol:
+                fr = await b.send(["REQ", "probe", {"ids": ["ee" * 32]}])
+                if rig.stuck or not any(json.loads(x)[0] == "EOSE" for x in fr):
+                    viol.append(V("bystander-req-not-answered", "other connections are unaffected", waiting=rig.stuck, frames=fr[:2]))
+            for c in (a, b):
+                if not c.task.done():
+                    c.feed(None)
+            await rig.settle()
+            for c in (a, b):
+                if not c.task.done():
+                    if not viol:
+                        viol.append(V("handler-does-not-finish", "when a connection ends its tasks finish", waiting=rig.stuck, case=case))
+                    c.task.cancel()
+            await turns(20)
+            left = [t for t in asyncio.all_tasks() if not t.done() and t is not asyncio.current_task()]
+            if not viol and len(left) + 1 > base_tasks:
+                names = sorted(str(getattr(t.get_coro(), "__qualname__", t)) for t in left)
+                viol.append(V("tasks-leaked", "when a connection ends all its subscriptions are dropped and its tasks finish",
+                              before=base_tasks, after=len(left) + 1, tasks=names[:6]))
+        return Result(viol, bool(n_live and before_release and ending != "nothing"), ["backend:" + backend, "ending:" + ending])
+
+
+SUBCHECKS = [Robust(), AsgiStack(), MidDelivery(), AbandonedQuery()]
